@@ -5,6 +5,7 @@
 use std::mem::MaybeUninit;
 
 pub use crate::parser::verif_hooks as parser;
+pub use crate::serde::de::verif_hooks as de;
 pub use crate::util::string::verif_hooks as string;
 pub use crate::util::unicode::verif_hooks as unicode;
 pub use crate::value::node::verif_hooks as node;
